@@ -1162,6 +1162,13 @@ struct Scanner : RecursiveASTVisitor<Scanner> {
       o["ret"] = typeStr(FD->getReturnType());
       o["implicit"] = FD->isImplicit();
       o["defaulted"] = FD->isDefaulted();
+      // written noexcept / noexcept(true) / throw(): an exception that reaches the function's boundary ends the program
+      if (auto FPT = FD->getType()->getAs<FunctionProtoType>()) {
+         auto EST = FPT->getExceptionSpecType();
+         if (!FD->isImplicit() and !isa<CXXDestructorDecl>(FD)
+             and (EST == EST_BasicNoexcept or EST == EST_NoexceptTrue or EST == EST_DynamicNone or EST == EST_NoThrow))
+            o["noexcept"] = true;
+      }
       o["constexpr"] = FD->isConstexpr();
       o["consteval"] = FD->isConsteval();
       o["inline"] = FD->isInlined();
